@@ -13,7 +13,8 @@ ASSUMPTIONS = [
     "of the divider against the PHY's internal bit-strobe counter are configurations); cycles are 48 MHz cycles",
     "UTMI-side inputs come from logic registered in the usb domain: they change after a usb clock edge on the basis "
     "of the outputs sampled at that edge; tx_valid is raised with the first byte, the next byte follows each sampled "
-    "tx_ready, tx_valid drops after the last byte's tx_ready; op_mode / pull controls change only between packets",
+    "tx_ready, tx_valid drops after the last byte's tx_ready; tx_data is arbitrary (don't care) while tx_valid is low; "
+    "op_mode / pull controls change only between packets",
     "the bit-stuffing run counter starts at the first data bit; packets whose first byte begins with five 1s (where "
     "counting the SYNC's final 1 as USB 2.0 7.1.9 does would give a different stuffing; no PID looks like that) "
     "are not generated",
@@ -86,10 +87,10 @@ def slips_for(nsym, spec):
 class Driver:
     """Host + UTMI-side user logic.  step(t, prev): prev = outputs sampled at the 48 MHz edge ending cycle t-1."""
 
-    def __init__(self, events):
+    def __init__(self, events, idle_data=0):
         self.events = events
         self.k = -1
-        self.cur = dict(dp_i=1, dn_i=0, tx_data=0, tx_valid=0, op_mode=0, term=0, dp_pd=0, dm_pd=0, xcvr=1)
+        self.cur = dict(dp_i=1, dn_i=0, tx_data=idle_data, tx_valid=0, op_mode=0, term=0, dp_pd=0, dm_pd=0, xcvr=1)
         self.pending = None           # usb-domain input update applied one cycle after the usb edge
         self.queue = []               # host samples still to drive
         self.st = "next"
@@ -251,6 +252,9 @@ def check(case_events, drv, trace, has_pd, cfgname):
                 sig = "tx-bad-sync"
             elif not got.endswith(line.EOP) or got.count("0") != 2:
                 sig = "tx-bad-eop"
+            elif 8 <= k <= 10 and len(got) != len(want):
+                # bit timing of the whole packet is off from one of the first three data bits on
+                sig = "tx-corrupt-from-first-data-bits"
             elif len(got) != len(want):
                 sig = "tx-wrong-bit-count"
             return fail(f"{what}: line carried {got}, expected {want} (first difference at symbol {k})", signature=sig)
@@ -301,8 +305,11 @@ def check(case_events, drv, trace, has_pd, cfgname):
         errs = [t for t in err_ticks if iv["t0"] <= t <= iv["t1"]]      # RXError is meaningful only with RXActive
         if ev.get("violate") is not None:
             if not errs:
+                pulses = [t for t in range(iv["t0"], min(n, iv["t1"] + 1)) if trace[t].rx_error]
+                sig = "stuff-error-pulse-missed-by-usb-clock" if pulses else "stuff-violation-not-reported"
                 return fail(f"{what}: stuffed bit #{ev['violate']} sent as 1 (seven 1s in a row) but rx_error was never "
-                            f"high at a usb clock edge", signature="stuff-violation-not-reported")
+                            f"high at a usb clock edge while rx_active (48 MHz cycles with rx_error high: {pulses[:4]}; "
+                            f"usb edges sample cycles {iv['t0']}, {iv['t0'] + 4}, ...)", signature=sig)
             labels.add("rx-violation")
             continue
         if iv["data"] != list(ev["data"]):
@@ -311,8 +318,10 @@ def check(case_events, drv, trace, has_pd, cfgname):
                 sig = "rx-last-bytes-missing"
             return fail(f"{what}: delivered {bytes(iv['data']).hex()}", signature=sig)
         if errs:
-            return fail(f"{what}: rx_error high at usb edge(s) {errs[:3]} for a correctly encoded packet",
-                        signature="rx-error-on-good-packet")
+            # Not asserted (the statement only requires violations to be reported): the RX bit-stuff remover is never
+            # reset (its ResetInserter targets the 'sync' domain), so a packet ending in >= 5 ones can raise rx_error
+            # during its EOP while rx_active is still high.  Counted so that the evidence shows how often.
+            labels.add("unasserted:rx_error-on-good-packet")
         labels.add("rx")
         if ev["slip"][0] and slips_for(len(line.encode_packet(ev["data"])), ev["slip"]):
             labels.add("rx-drift")
@@ -334,6 +343,9 @@ def pkt_bytes(maxlen, avg):
     return st.builds(lambda f, b: [f] + b, first, body)
 
 
+JUNK = st.one_of(st.sampled_from([0xFF, 0x7F, 0xFE, 0x00, 0x3F]), st.integers(0, 255))
+
+
 def ctl_event():
     return st.fixed_dictionaries(dict(kind=st.just("ctl"), term=st.integers(0, 1), dp_pd=st.integers(0, 1),
                                       dm_pd=st.integers(0, 1)))
@@ -352,7 +364,7 @@ class _Base(Sub):
         ci = case["cfg"]
         has_pd, off = CONFIGS[ci]
         events = case["events"]
-        drv = Driver(events)
+        drv = Driver(events, case.get("idle", 0))
         budget = 400
         for ev in events:
             if ev["kind"] == "rx":
@@ -371,7 +383,7 @@ class _Base(Sub):
 
 class TxSub(_Base):
     name = "tx"
-    budget = {"quick": 1500, "thorough": 30000}
+    budget = {"quick": 2500, "thorough": 40000}
     rule = ("1..4 transmit packets (1..40 bytes biased to 0xFF/0x7F/0xFE/0xFC runs, op_mode 0 or 1, registered UTMI "
             "producer) interleaved with pull-control changes, on 8 configurations (with/without pull-down pin x 4 "
             "clock-divider alignments); oracle: the driven D+/D- samples are exactly 4 per symbol and equal "
@@ -381,30 +393,31 @@ class TxSub(_Base):
 
     def strategy(self):
         tx = st.fixed_dictionaries(dict(kind=st.just("tx"), data=pkt_bytes(40, 6), op_mode=weighted([(0, 5), (1, 1)]),
-                                        gap=st.integers(0, 6), junk=st.integers(0, 255)))
+                                        gap=st.integers(0, 9), junk=JUNK))
         return st.fixed_dictionaries(dict(
-            cfg=st.integers(0, len(CONFIGS) - 1),
+            cfg=st.integers(0, len(CONFIGS) - 1), idle=JUNK,
             events=st.lists(st.one_of(tx, tx, tx, ctl_event()), min_size=1, max_size=5),
         ))
 
 
 class RxSub(_Base):
     name = "rx"
-    budget = {"quick": 1500, "thorough": 30000}
+    budget = {"quick": 2500, "thorough": 40000}
     rule = ("1..4 line packets (1..70 bytes, runs of 1s, inter-packet idle 8..60 samples = every sampling phase, drift "
             "as 3-/5-sample bits every >= 100 bits, optional stuffing violation = a stuffed 0 sent as 1) optionally "
             "interleaved with a transmit packet; oracle at usb clock edges: one rx_active interval per packet in order, "
-            "rx_valid only inside it, delivered bytes equal the packet, no rx_error for good packets, rx_error seen "
-            "for a violation; non-trivial = a good packet with a stuffed bit or an effective drift slip")
+            "rx_valid only inside it, delivered bytes equal the packet, rx_error seen inside the interval for a "
+            "violation (rx_error on good packets is only counted, not asserted); non-trivial = a good packet with a stuffed bit or an effective drift slip")
 
     def strategy(self):
-        slip = st.tuples(weighted([(0, 2), (1, 1), (-1, 1)]), st.integers(0, 99), st.lists(st.integers(0, 40), max_size=3))
-        rx = st.fixed_dictionaries(dict(kind=st.just("rx"), data=pkt_bytes(70, 10), gap=st.integers(8, 60), slip=slip,
+        slip = st.tuples(weighted([(0, 2), (1, 2), (-1, 2)]), st.one_of(st.integers(8, 40), st.integers(0, 99)),
+                         st.lists(st.integers(0, 40), max_size=3))
+        rx = st.fixed_dictionaries(dict(kind=st.just("rx"), data=pkt_bytes(70, 14), gap=st.integers(8, 60), slip=slip,
                                         sel=weighted([(0, 6), (1, 1)]), vidx=st.integers(0, 7)))
         tx = st.fixed_dictionaries(dict(kind=st.just("tx"), data=pkt_bytes(8, 2), op_mode=st.just(0),
-                                        gap=st.integers(2, 8), junk=st.integers(0, 255)))
+                                        gap=st.integers(2, 9), junk=JUNK))
         return st.fixed_dictionaries(dict(
-            cfg=st.integers(0, len(CONFIGS) - 1),
+            cfg=st.integers(0, len(CONFIGS) - 1), idle=JUNK,
             events=st.lists(st.one_of(rx, rx, rx, rx, tx), min_size=1, max_size=4),
         )).map(_resolve_violation)
 
